@@ -859,6 +859,55 @@ def instantiate_fn(fs, item, em):
                     k += 1
                 if not found:
                     degraded.append("%s rule: occurrence %d not found" % (rule, n))
+            elif rule == "filter_map_collect_result":
+                # RECV.into_iter().filter(F).map(G).collect()   where the collect target is Result<Vec<T>, E> and the
+                # expression is the function's result:  loop { if F(&x) { out.push(G(x)?) } } Ok(out)
+                cnt = 0
+                found = False
+                k = lo
+                while k + 7 < hi:
+                    tt = [toks[k + j].text for j in range(0, 7)]
+                    if tt == [".", "into_iter", "(", ")", ".", "filter", "("]:
+                        cnt += 1
+                        if cnt == max(n, 1):
+                            r = recv_start(toks, k)
+                            recv = text[toks[r].start:toks[k - 1].end]
+                            fclose = match_close(toks, k + 6)
+                            if not (toks[fclose + 1].text == "." and toks[fclose + 2].text == "map" and toks[fclose + 3].text == "("):
+                                raise GenError("%s: filter_map_collect_result: `.map(` expected after filter" % fnkey)
+                            mclose = match_close(toks, fclose + 3)
+                            j = mclose + 1
+                            if not (toks[j].text == "." and toks[j + 1].text == "collect"):
+                                raise GenError("%s: filter_map_collect_result: .collect expected" % fnkey)
+                            j += 2
+                            if toks[j].text == "::":
+                                j = angle_skip(toks, j + 1)
+                            if not (toks[j].text == "(" and toks[j + 1].text == ")"):
+                                raise GenError("%s: filter_map_collect_result: `()` expected" % fnkey)
+                            endtok = toks[j + 1]
+                            it = kws.get("iter", "__it")
+                            ety = pos[0] if pos else "_"
+                            inv = []
+                            if kws.get("invariant"):
+                                inv.append("invariant")
+                                for ci, cexpr in enumerate(split_top(kws["invariant"]), 1):
+                                    obid = "%s#fmc%dinv%d" % (fnkey, cnt, ci)
+                                    inv.append("    %s,  /*@ob %s*/" % (cexpr, obid))
+                                    em._pending.append({"id": obid, "kind": "loop-invariant", "fn": fnkey,
+                                                        "tags": list(fs.tags), "text": cexpr, "marker": obid})
+                            edits.append((toks[r].start, toks[k + 6].end, "{ let __src = %s.into_iter(); let __f = " % recv))
+                            edits.append((toks[fclose].start, toks[fclose + 3].end, "; let __g = "))
+                            edits.append((toks[mclose].start, endtok.end,
+                                          "; let mut __out: Vec<%s> = Vec::new(); for __x in %s: __src\n" % (ety, it) +
+                                          "\n".join("                " + x for x in inv) +
+                                          "\n            { %s if __f(&__x) { __out.push(__g(__x)?); } } %s Ok(__out) }" % (kws.get("body", ""), kws.get("post", ""))))
+                            log.append("R-filter-map-collect-result: `%s.into_iter().filter(F).map(G).collect::<Result<Vec<_>,_>>()` rewritten to a loop `if F(&x) { out.push(G(x)?) }` ending in Ok(out) (line %d)" % (
+                                recv, item.line0 + text.count("\n", 0, toks[k].start)))
+                            found = True
+                            break
+                    k += 1
+                if not found:
+                    degraded.append("filter_map_collect_result rule: occurrence %d not found" % n)
             elif rule == "for_each":
                 # ITER.for_each(|x| { BODY });   ->   for x in it: ITER invariant .. { BODY }   (R-for-each)
                 cnt = 0
